@@ -527,9 +527,6 @@ func (g *Gen) next(x *ssa.Next, st *State) {
 	m.comps["It"] = "(Array Int Int)"
 	pos := g.define("itpos", "Int", sel(g.heapGet(st, "It"), it.S))
 	if x.IsString {
-		g.ensureExtra("(declare-fun runeAt ((Array Int Int) Int Int) Int)\n(declare-fun runeW ((Array Int Int) Int Int) Int)\n" +
-			"(assert (forall ((a (Array Int Int)) (p Int) (h Int)) (! (and (>= (runeW a p h) 1) (<= (runeW a p h) 4) (=> (< p h) (<= (+ p (runeW a p h)) h)) (>= (runeAt a p h) 0)) :pattern ((runeW a p h)))))\n" +
-			"(assert (forall ((a (Array Int Int)) (p Int) (h Int)) (! (=> (and (< p h) (< (select a p) 128)) (and (= (runeW a p h) 1) (= (runeAt a p h) (select a p)))) :pattern ((runeAt a p h)))))")
 		arr, lo, hi := sArr(src.S), add(sOff(src.S), pos), sHi(src.S)
 		ok := g.define("itok", "Bool", "(< "+pos+" "+sLen(src.S)+")")
 		r := g.define("itrune", "Int", "(runeAt "+arr+" "+lo+" "+hi+")")
